@@ -136,6 +136,50 @@ class C03(C01):
     classes = {"K3": 4 << 20, "K7": 64 << 20}
 
 
+class C14(Prop):
+    id = "C14"
+    coq_targets = ["Properties/C14.vo", "Corr/C14.vo"]
+    props_file = "Properties/C14.v"
+    harness_cmd = "c14"
+    n = {"quick": 700, "thorough": 12000}
+    search_seeds = 2
+    bits = {4: "the renamed twin's diagnostics are not the original's moved by the induced position shift (names inside messages substituted back)"}
+    rule = ("generated Lua 5.1 programs, filter programs, templates and the repository's fixtures; one script-introduced name (a "
+            "variable of the scope analysis, not a library name / field, not reserved, not ignored, not a string literal of the file) "
+            "is renamed at every variable-position token to a fresh longer name; all lints run on both; the multiset of "
+            "(code, range, secondary ranges, message+notes) must match after moving positions; for half of the cases the twin's "
+            "syntax tree is also checked to be map_block of the original and the scope model to be equivariant on it; "
+            "non-trivial = at least one diagnostic and two renamed occurrences; distinct = distinct descriptions")
+    trusted_base = SCOPE_TRUST[:3] + [
+        "proved: scope analysis, undefined_variable and shadowing reports commute with injective renamings (Scope/EquivInterp.v, Lints/ScopeLintsEquiv.v)",
+        "all other lints: metamorphic testing only (labelled as such)",
+        "the renaming transformation is implemented in the harness (token-level) and validated against map_block on the dumped trees",
+    ]
+    assumptions = ["rho injective, fixes `...` and `self`, keeps library-root and ignore-pattern status"]
+
+
+class C13(Prop):
+    id = "C13"
+    coq_targets = ["Properties/C13.vo", "Corr/C13.vo"]
+    props_file = "Properties/C13.v"
+    harness_cmd = "c13"
+    n = {"quick": 900, "thorough": 15000}
+    search_seeds = 2
+    bits = {4: "the trivia-rewritten twin's diagnostics are not the original's moved by the induced position shift"}
+    classes = {}
+    rule = ("systematic: every template program x every token x {space, block comment} inserted after the token; random: generated "
+            "programs, filter programs, templates, fixtures with 1-4 insertions (space / tab / block comment before or after a token, "
+            "blank or comment line before a line) that neither join nor split lines of code; all lints (lua51 extended with "
+            "deprecated globals and a deprecated parameter) run on both; diagnostics matched pairwise after moving positions "
+            "(an end point exactly at an insertion may or may not move); non-trivial = at least one diagnostic; distinct = distinct descriptions")
+    trusted_base = SCOPE_TRUST[:3] + [
+        "proved: scope analysis, undefined_variable and shadowing reports commute with every injective map on byte ranges",
+        "all other lints: metamorphic testing only (labelled as such)",
+        "comments_count options of empty_if / empty_loop are left at their default (off)",
+    ]
+    assumptions = ["insertions keep statements on their lines"]
+
+
 class C06(Prop):
     id = "C06"
     coq_targets = ["Properties/C06.vo", "Corr/C06.vo"]
@@ -160,4 +204,4 @@ class C06(Prop):
 from .c19 import C19  # noqa: E402
 from .c16 import C16  # noqa: E402
 
-ALL = {c.id: c for c in [C01, C02, C03, C06, C08, C09, C10, C15, C16, C19]}
+ALL = {c.id: c for c in [C01, C02, C03, C06, C08, C09, C10, C13, C14, C15, C16, C19]}
